@@ -109,7 +109,7 @@ def evalField (g : Globals) (vn attr : Name) : EvalM := fun s =>
 register result of the leaf's type -/
 def evalExt (tag : Nat) (ty : PrimTy) : EvalM := fun s =>
   let s := s.incReg
-  (some ⟨.prim ty, .reg s.curReg⟩, s.push (.ext tag s.curReg))
+  (some ⟨.prim ty, .reg s.curReg⟩, s.push (.ext tag ty s.curReg))
 
 /-- `expression_operation` on a folded pair: left operand, right operand, type check, operation -/
 def evalPair (l : EvalM) (o : Op) (r : EvalM) : EvalM := fun s =>
